@@ -93,4 +93,9 @@ HARNESSES = [
             models={_unpack_decimal128: lambda eng, buf: ("d128", mkbytes(list(as_bytes_list(buf)))),
                     _pack_decimal128: lambda eng, v: mkbytes(list(as_bytes_list(v[1])), True)}),
 ]
+# "full re-encode of every table on save" (recalculate_table_data, recalculate_row_info) is part of C02's mechanism:
+# the tile-partition and row-record harnesses are shared with C07
+from specs import c07 as _c07   # noqa: E402
+
+HARNESSES += [h for h in _c07.HARNESSES if h.name in ("H07a", "H07b")]
 PROPERTY = "C02"
